@@ -95,7 +95,7 @@ def main():
                      "kind_free_text": "contract-based deductive verification: Verus (Z3) on functions extracted mechanically from /repo each run, against a shim of assumed dependency contracts"}],
         "checks": checks,
         "not_applicable": na,
-        "notes": "exit 0 = all obligations serving the property discharged; exit 1 = a baseline obligation fails (VIOLATION line per obligation); exit 2 = undecided (lost anchor, unsupported construct, rlimit, vacuity). See DESIGN.md.",
+        "notes": "exit 0 = all obligations serving the property discharged; exit 1 = a baseline obligation fails (VIOLATION line per obligation); exit 2 = undecided (lost anchor, unsupported construct or compile error of the generated file, rlimit, vacuity, a function that gained a closure without contract). Range conditions of arithmetic that a changed tree adds are left to the runtime overflow checks in non-strict units (DESIGN.md 6). Every VIOLATION line ends with no-failing-input-found (Verus gives no counterexample); the replay file names the failed obligation and carries the verifier's output. See DESIGN.md 0, 6, 9, 12.",
     }
     json.dump(man, open(os.path.join(ROOT, "MANIFEST.json"), "w"), indent=1)
     print(f"MANIFEST.json: {len(checks)} checks, {len(na)} not_applicable")
